@@ -13,6 +13,12 @@ def V(id, props, module, old, new, descr, kind="break", count=1, **kw):
     VARIANTS.append(dict(id=id, props=props, module=module, old=old, new=new, descr=descr, kind=kind, count=count, **kw))
 
 
+def VP(id, props, patch, descr, module=None, old=None, new=None, kind="break", count=1, **kw):
+    """A stored refactoring (benign/<name>/patch.diff, equivalence confirmed on the real code) as the base; with old/new an edit
+    of the refactored text on top of it (the break), without: the refactoring itself (a benign twin)."""
+    VARIANTS.append(dict(id=id, props=props, patch=patch, module=module, old=old, new=new, descr=descr, kind=kind if old else "benign", count=count, **kw))
+
+
 def V2(id, props, edits, descr, kind="break", **kw):
     VARIANTS.append(dict(id=id, props=props, edits=edits, descr=descr, kind=kind, **kw))
 
@@ -346,7 +352,7 @@ V("C01-scipy-logsumexp", ["C01"], "gmm", "        log_likelihood = logaddexp_red
 V("C01-dask-sum", ["C01", "C04"], "gmm", "chunk=logaddexp_reduce, aggregate=logaddexp_reduce", "chunk=logaddexp_reduce, aggregate=np.sum", "Dask arm aggregates the per-chunk log-sum-exps with a plain sum")
 V("C01-reduce-axis1", ["C01"], "gmm", "    return np.logaddexp.reduce(array, axis=axis, keepdims=keepdims, initial=-np.inf)", "    return np.logaddexp.reduce(array, axis=1, keepdims=keepdims, initial=-np.inf)", "log-sum-exp over the sample axis")
 V("C01-broadcast-lost", ["C01"], "gmm", "    ll = -0.5 * (machine.g_norms[:, None] + z)", "    ll = -0.5 * (machine.g_norms + z)", "normaliser broadcast along the sample axis: (C,)+(C,N)")
-V("C01-atleast2d-dropped", ["C01"], "gmm", "    data = np.atleast_2d(data)\n    log_weighted_likelihoods = log_weighted_likelihood(data=data, machine=machine)\n    ll_reduced", "    log_weighted_likelihoods = log_weighted_likelihood(data=data, machine=machine)\n    ll_reduced", "a single vector is no longer promoted to a batch of one")
+V("C01-atleast2d-dropped", ["C01"], "gmm", "    data = np.atleast_2d(data)\n    log_weighted_likelihoods = log_weighted_likelihood(data=data, machine=machine)\n    ll_reduced", "    log_weighted_likelihoods = log_weighted_likelihood(data=data, machine=machine)\n    ll_reduced", "a single vector is no longer promoted to a batch of one", kind="benign")  # confirmed on the real code: vstack of the per-component scalars is a (C, 1) column, the result is identical
 V("C01-vectorised", ["C01", "C15"], "gmm",
   "    z = []\n    for i in range(n_gaussians):\n        temp = np.sum((data - machine.means[i]) ** 2 / machine.variances[i], axis=-1)\n        z.append(temp)\n    z = np.vstack(z)",
   "    z = np.sum((data[None, :, :] - machine.means[:, None, :]) ** 2 / machine.variances[:, None, :], axis=-1)",
@@ -643,3 +649,65 @@ V("F4-prior-side-ml-else", ["C05"], "gmm", "        if self.trainer == 'map':\n 
 V("F4-prior-side-ubm", ["C05"], "gmm", "if self.ubm is not None:\n            self.means", "if self.ubm is None:\n            self.means", "constructor hands the prior over when there is none")
 V("F4-latent-x-not-swapped", ["C07"], "factor_analysis", "        latent_x_i = np.swapaxes(latent_x_i, 0, 1)\n", "", "per-class session factors left as (sessions, r_U) instead of (r_U, sessions)")
 V("F4-latent-x-transposed", ["C07"], "factor_analysis", "        latent_x_i = np.swapaxes(latent_x_i, 0, 1)\n", "        latent_x_i = latent_x_i.T\n", "swapaxes written as .T", kind="benign")
+
+
+# ---- round 5: stored refactorings of the third benign round as bases, each with breaks of the idiom it introduces ------------
+_B = "benign/B3%s/patch.diff"
+VP("R5-tree-zip-slices", ["C12"], _B % "f-4", "i-vector tree written with two slices and zip, unpaired element re-appended")
+VP("R5-tree-zip-slices-no-carry", ["C12"], _B % "f-4", "the unpaired element is not carried over", "ivector", "] + unpaired", "]")
+VP("R5-tree-zip-slices-gap", ["C12"], _B % "f-4", "second half starts one element late", "ivector", "second_half = stats[half:2 * half]", "second_half = stats[half + 1:2 * half]")
+VP("R5-tree-zip-slices-tail-late", ["C12"], _B % "f-4", "the tail starts after the unpaired element", "ivector", "unpaired = stats[2 * half:]", "unpaired = stats[2 * half + 1:]")
+VP("R5-gmm-pairwise", ["C02", "C03", "C04"], _B % "f-1", "GMM M-step folds the block statistics by a balanced pairwise tree")
+VP("R5-gmm-pairwise-short-range", ["C02", "C03", "C04"], _B % "f-1", "the pairing loop stops two elements early", "gmm", "for i in range(2, len(level) - 1, 2)", "for i in range(2, len(level) - 3, 2)")
+VP("R5-gmm-pairwise-no-carry", ["C02", "C03", "C04"], _B % "f-1", "odd element not carried", "gmm", "        if len(level) % 2:\n            paired.append(level[-1])\n", "")
+VP("R5-gmm-pairwise-double", ["C02"], _B % "f-1", "first element added to itself", "gmm", "paired = [operator.iadd(level[0], level[1])]", "paired = [operator.iadd(level[0], level[0])]")
+VP("R5-kmeans-recursive-sum", ["C06"], _B % "f-2", "k-means M-step sums the block statistics by recursive halving")
+VP("R5-kmeans-recursive-gap", ["C06"], _B % "f-2", "the right half starts one element late", "kmeans", "parts, middle, stop", "parts, middle + 1, stop")
+VP("R5-kmeans-recursive-base", ["C06"], _B % "f-2", "base case returns the element after the window", "kmeans", "return parts[start]", "return parts[stop]")
+VP("R5-reduce-iadd-doubling", ["C09", "C12"], _B % "f-3", "reduce_iadd as a stride-doubling tree in place")
+VP("R5-reduce-iadd-doubling-short", ["C09", "C12"], _B % "f-3", "pass stops one node early", "factor_analysis", "range(0, len(nodes) - stride, 2 * stride)", "range(0, len(nodes) - stride - 1, 2 * stride)")
+VP("R5-reduce-iadd-tripling", ["C09", "C12"], _B % "f-3", "stride tripled", "factor_analysis", "stride *= 2", "stride *= 3")
+VP("R5-reduce-iadd-neighbour", ["C09", "C12"], _B % "f-3", "partner at distance one in every pass", "factor_analysis", "nodes[i + stride])", "nodes[i + 1])")
+VP("R5-wccn-sort-split", ["C14"], _B % "b-1", "WCCN groups the samples by a stable sort of the labels and a split at the label changes")
+VP("R5-wccn-split-positions", ["C14"], _B % "b-1", "the identity order is split: runs of positions, not classes", "wccn", "np.split(order, run_starts)", "np.split(np.arange(len(y_)), run_starts)")
+VP("R5-wccn-split-no-shift", ["C14"], _B % "b-1", "cut points not moved by one", "wccn", "sorted_y[:-1]) + 1", "sorted_y[:-1])")
+VP("R5-wccn-split-unsorted-changes", ["C14"], _B % "b-1", "label changes of the unsorted labels", "wccn", "sorted_y = y_[order]", "sorted_y = y_")
+VP("R5-wccn-split-key-sorted", ["C14"], _B % "b-1", "group label read from the sorted labels at an original position", "wccn", "y_[indexes[0]]: ", "sorted_y[indexes[0]]: ")
+VP("R5-kmeans-sort-split", ["C06", "C20"], _B % "b-2", "cluster members by stable sort + bincount + split")
+VP("R5-kmeans-split-positions", ["C06", "C20"], _B % "b-2", "identity order split", "kmeans", "members = np.split(order, np.cumsum(counts)[:-1])", "members = np.split(np.arange(len(data)), np.cumsum(counts)[:-1])")
+VP("R5-kmeans-split-unique-counts", ["C06"], _B % "b-2", "counts of the occurring clusters only: an empty cluster shifts the later ones", "kmeans", "counts = np.bincount(closest_centroid_indices, minlength=n_clusters)", "counts = np.unique(closest_centroid_indices, return_counts=True)[1]")
+VP("R5-kmeans-split-no-cumsum", ["C06"], _B % "b-2", "counts used as cut points", "kmeans", "np.split(order, np.cumsum(counts)[:-1])", "np.split(order, counts[:-1])")
+VP("R5-kmeans-masks-ne", ["C06"], _B % "b-2", "Dask arm masks with !=", "kmeans", "members = [closest_centroid_indices == i for i in range(n_clusters)]", "members = [closest_centroid_indices != i for i in range(n_clusters)]")
+VP("R5-fa-sort-split", ["C07", "C09", "C16"], _B % "b-3", "sessions of a class by stable sort + unique counts + split, zipped with the unique labels")
+VP("R5-fa-split-positions", ["C07", "C09", "C16"], _B % "b-3", "identity order split", "factor_analysis", "runs = np.split(order, np.cumsum(counts)[:-1])", "runs = np.split(np.arange(len(y_array)), np.cumsum(counts)[:-1])")
+VP("R5-kmeans-scatter-add", ["C06", "C20"], _B % "a-1", "first-order statistics by np.add.at")
+VP("R5-kmeans-scatter-subtract", ["C06"], _B % "a-1", "np.subtract.at", "kmeans", "np.add.at(cluster_sums, np.asarray(closest_k_indices), rows)", "np.subtract.at(cluster_sums, np.asarray(closest_k_indices), rows)")
+VP("R5-kmeans-scatter-permuted", ["C06"], _B % "a-1", "rows permuted, labels not", "kmeans", "np.add.at(cluster_sums, np.asarray(closest_k_indices), rows)", "np.add.at(cluster_sums, np.asarray(closest_k_indices), rows[np.argsort(closest_k_indices)])")
+VP("R5-kmeans-scatter-foreign-labels", ["C06"], _B % "a-1", "rows scattered round-robin", "kmeans", "np.add.at(cluster_sums, np.asarray(closest_k_indices), rows)", "np.add.at(cluster_sums, np.arange(len(rows)) % n_clusters, rows)")
+VP("R5-kmeans-segments", ["C06", "C20"], _B % "a-2", "second moments by stable sort + np.add.reduceat over the label runs")
+VP("R5-kmeans-segments-from-counts", ["C06", "C20"], _B % "a-2", "segment starts from cumulative counts: empty segments", "kmeans", "starts = np.flatnonzero(np.diff(sorted_labels, prepend=-1))", "starts = np.cumsum(np.bincount(labels, minlength=n_clusters))[:-1]")
+VP("R5-kmeans-segments-key", ["C06"], _B % "a-2", "segment sums stored by position", "kmeans", "variances_sum[sorted_labels[starts]] = ", "variances_sum[np.arange(len(starts))] = ")
+VP("R5-kmeans-segments-unsorted-rows", ["C06"], _B % "a-2", "rows not brought into sorted order", "kmeans", "np.square(rows[order], dtype=float), starts", "np.square(rows, dtype=float), starts")
+VP("R5-kmeans-segments-no-prepend", ["C06"], _B % "a-2", "first segment lost", "kmeans", "np.diff(sorted_labels, prepend=-1)", "np.diff(sorted_labels)")
+VP("R5-fa-onehot", ["C07", "C09"], _B % "a-3", "zeroth-order class sums by a one-hot matrix product")
+VP("R5-fa-onehot-negated", ["C07"], _B % "a-3", "sums stored with a minus sign", "factor_analysis", "n_acc[:] = membership @ n_per_sample", "n_acc[:] = -(membership @ n_per_sample)")
+VP("R5-fa-onehot-ne", ["C07", "C09"], _B % "a-3", "membership by inequality", "factor_analysis", "np.arange(n_classes)[:, None] == class_rows", "np.arange(n_classes)[:, None] != class_rows")
+VP("R5-fa-bincount", ["C07", "C09"], _B % "a-4", "first-order class sums by one weighted bincount")
+VP("R5-lwl-inplace", ["C01", "C02"], _B % "d-1", "log-density computed in place in fresh temporaries (out=)")
+VP("R5-lwl-inplace-sign", ["C01"], _B % "d-1", "in-place arm subtracts the log weights", "gmm", "return np.add(log_weights, z, out=z)", "return np.subtract(log_weights, z, out=z)")
+VP("R5-lwl-inplace-half", ["C01"], _B % "d-1", "in-place arm forgets the one half", "gmm", "np.multiply(-0.5, z, out=z)", "np.multiply(-1.0, z, out=z)")
+VP("R5-lwl-inplace-times-var", ["C01"], _B % "d-1", "in-place arm multiplies by the variance", "gmm", "temp /= variances_i", "temp *= variances_i")
+VP("R5-ls-inplace", ["C08", "C11"], _B % "d-2", "linear scoring factors computed in place (out=)")
+VP("R5-ls-inplace-times-var", ["C08"], _B % "d-2", "in-place arm multiplies by the variances", "linear_scoring", "np.divide(a, ubm.variances, out=a)", "np.multiply(a, ubm.variances, out=a)")
+VP("R5-ls-inplace-sign", ["C08"], _B % "d-2", "in-place arm: b - sum_px", "linear_scoring", "np.subtract(sum_px[:, :, :], b, out=b)", "np.subtract(b, sum_px[:, :, :], out=b)")
+VP("R5-iv-inplace", ["C10"], _B % "d-3", "i-vector E-step temporaries reused in place")
+VP("R5-iv-inplace-sign", ["C10"], _B % "d-3", "in-place arm adds the cross term", "ivector", "np.subtract(Sij, Snorm, out=Snorm)", "np.add(Sij, Snorm, out=Snorm)")
+VP("R5-km-inplace", ["C13", "C20"], _B % "d-4", "cluster moments turned into mean / variance in place")
+VP("R5-km-inplace-no-square", ["C20"], _B % "d-4", "in-place arm subtracts the mean instead of its square", "kmeans", "        means_sum **= 2\n", "")
+VP("R5-memo-scalar", ["C16", "C17", "C01"], _B % "e-3", "lru_cache on a pure function of one scalar")
+VP("R5-wccn-index-dict", ["C14", "C04"], _B % "e-2", "per-class index arrays kept in a call-local dictionary")
+VP("R5-wccn-index-dict-ne", ["C14"], _B % "e-2", "dictionary filled with the non-members", "wccn", "indexes_l[label] = numerical_module.where(y_ == label)[0]", "indexes_l[label] = numerical_module.where(y_ != label)[0]")
+VP("R5-ls-reshape", ["C08", "C11"], _B % "c-1", "explicit shape normalisation by reshape")
+VP("R5-ls-reshape-no-expand", ["C08"], _B % "c-1", "2-D models no longer get the model axis", "linear_scoring", "models_means = models_means.reshape((1,) + tuple(models_means.shape))", "pass")
+VP("R5-ll-sample-rows", ["C01"], _B % "c-4", "single vector promoted by an explicit reshape helper")
+VP("R5-ll-sample-rows-column", ["C01"], _B % "c-4", "a vector becomes a column of one-feature samples", "gmm", "(1, data.shape[0])", "(data.shape[0], 1)")
